@@ -29,6 +29,8 @@ func init() {
 			{Pkg: "verifself", Entry: "H_ST_hold_loop", Witnesses: []string{"ST.hold.loop"}},
 			{Pkg: "verifself", Entry: "H_ST_hold_float", Witnesses: []string{"ST.hold.float"}, DiffSolvers: []string{"cvc5"}},
 			{Pkg: "verifself", Entry: "H_ST_hold_clock", Witnesses: []string{"ST.hold.clock"}},
+			{Pkg: "verifself", Entry: "H_ST_hold_noleak", Witnesses: []string{"ST.hold.noleak"}},
+			twin("H_ST_twin_leak", "twin.goroutine-leak"),
 			twin("H_ST_twin_arith", "twin.overflow", "twin.mul-sign", "twin.neg-min", "twin.u8-wrap", "twin.midpoint", "twin.unsigned-underflow", "twin.needle"),
 			twin("H_ST_twin_float", "twin.float-absorb"),
 			twin("H_ST_twin_index", "panic.runtime@verifself.H_ST_twin_index"),
